@@ -762,9 +762,34 @@ fn invmod64_case(rng: &mut Rng, iters: u64) {
     }
 }
 
+
+/// F15: pollard_pm1::PM1Base::factor on semiprimes close to 2^64 whose smaller factor p has a 400-smooth p - 1
+fn pm1base_case(rng: &mut Rng, iters: u64) {
+    let pb = yamaquasi::pollard_pm1::PM1Base::new();
+    for (p, q) in [(1073742289u64, 17179761769u64), (1073744491, 17179726523), (1073747621, 17179676453)] {
+        let n = p * q;
+        match catch_unwind(AssertUnwindSafe(|| pb.factor(n, 40000))) {
+            Err(_) => fail("pm1base", format!("PM1Base::factor({n}, 40000): panic")),
+            Ok(None) => fail("pm1base", format!("PM1Base::factor({n} = {p} * {q}, 40000) = None although p - 1 is 400-smooth")),
+            Ok(Some((a, b))) => if a.wrapping_mul(b) != n || a <= 1 || b <= 1 { fail("pm1base", format!("PM1Base::factor({n}, 40000) = ({a}, {b})")) },
+        }
+    }
+    // nothing false and no panic for random odd n over the whole 64-bit range
+    for it in 0..iters.min(2000) {
+        let n = match it % 3 { 0 => rng.word() | (1 << 63) | 1, 1 => (rng.word() >> (rng.next() % 40)) | 1, _ => rng.word() | 1 };
+        if n < 3 { continue; }
+        match catch_unwind(AssertUnwindSafe(|| pb.factor(n, 1200))) {
+            Err(_) => fail("pm1base", format!("PM1Base::factor({n}, 1200): panic")),
+            Ok(Some((a, b))) => if (a as u128) * (b as u128) != n as u128 || a <= 1 || b <= 1 { fail("pm1base", format!("PM1Base::factor({n}, 1200) = ({a}, {b})")) },
+            Ok(None) => {}
+        }
+    }
+}
+
 pub fn run(case: &str, rng: &mut Rng, iters: u64) -> bool {
     match case {
         "pp1" => pp1_case(),
+        "pm1base" => pm1base_case(rng, iters),
         "invmod64" => invmod64_case(rng, iters),
         "primesieve" => primesieve_case(iters),
         "factorapi" => factorapi(rng, iters),
